@@ -795,9 +795,11 @@ func main() {
 			// that are established (listed or confirmed): the observation under
 			// load was a different face of those defects (e.g. address space
 			// exhausted before the watchdog fired), not a finding of its own
+			// (for the wall-clock oracle, the only load-sensitive one, a re-run
+			// that stays within the budget is load noise as well)
 			ok := len(c.others) > 0
 			for _, o := range c.others {
-				if !established[o] {
+				if !established[o] && !(o == "no-failure" && strings.Contains(c.fp, "/time>budget/")) {
 					ok = false
 				}
 			}
